@@ -3,16 +3,31 @@ use crate::dig::new_digest;
 use crate::*;
 use cryptoxide::hmac::Hmac;
 
+/// the digest instance handed to HKDF: fresh, or (field "used": bytes) one that has already absorbed input, or ("used_final": true)
+/// one that was also finalised - the functions reset the instance they are given
+fn used_digest(e: &Ev) -> crate::dig::DynDigest {
+    use cryptoxide::digest::Digest;
+    let mut d = new_digest(e);
+    if e.contains_key("used") {
+        d.input(&get_bytes(e, "used"));
+        if e.get("used_final").and_then(|v| v.as_bool()).unwrap_or(false) {
+            let mut o = vec![0u8; d.output_bytes()];
+            d.result(&mut o);
+        }
+    }
+    d
+}
+
 pub fn call(op: &str, e: &Ev) -> Option<Out> {
     Some(match op {
         "hkdf_extract" => {
             let mut prk = vec![0xa5u8; get_usize(e, "n")];
-            cryptoxide::hkdf::hkdf_extract(new_digest(e), &get_bytes(e, "salt"), &get_bytes(e, "ikm"), &mut prk);
+            cryptoxide::hkdf::hkdf_extract(used_digest(e), &get_bytes(e, "salt"), &get_bytes(e, "ikm"), &mut prk);
             Out::Val(prk)
         }
         "hkdf_expand" => {
             let mut okm = vec![0xa5u8; get_usize(e, "n")];
-            cryptoxide::hkdf::hkdf_expand(new_digest(e), &get_bytes(e, "prk"), &get_bytes(e, "info"), &mut okm);
+            cryptoxide::hkdf::hkdf_expand(used_digest(e), &get_bytes(e, "prk"), &get_bytes(e, "info"), &mut okm);
             Out::Val(okm)
         }
         "pbkdf2" => {
@@ -20,6 +35,20 @@ pub fn call(op: &str, e: &Ev) -> Option<Out> {
             let mut mac = Hmac::new(new_digest(e), &get_bytes(e, "pw"));
             cryptoxide::pbkdf2::pbkdf2(&mut mac, &get_bytes(e, "salt"), get_usize(e, "c") as u32, &mut out);
             Out::Val(out)
+        }
+        "pbkdf2_blocks" => {
+            // a long derived key of which only the selected blocks (1-based, each output_bytes long) are logged
+            let mut out = vec![0xa5u8; get_usize(e, "n")];
+            let d = new_digest(e);
+            let os = cryptoxide::digest::Digest::output_bytes(&d);
+            let mut mac = Hmac::new(d, &get_bytes(e, "pw"));
+            cryptoxide::pbkdf2::pbkdf2(&mut mac, &get_bytes(e, "salt"), get_usize(e, "c") as u32, &mut out);
+            let mut sel = Vec::new();
+            for b in e.get("blocks").and_then(|v| v.as_array()).expect("harness: blocks") {
+                let i = b.as_u64().unwrap() as usize;
+                sel.extend_from_slice(&out[(i - 1) * os..core::cmp::min(i * os, out.len())]);
+            }
+            Out::Val(sel)
         }
         "scrypt_params" => {
             // only the parameter check
